@@ -114,6 +114,103 @@ func resolveCell(v ssa.Value) ssa.Value {
 // slices/maps that v may alias (IndexAddr/MapUpdate on the same base). Memory through struct fields is
 // followed flow-insensitively within the function (a load of x.f depends on every store to field f).
 func backSlice(v ssa.Value, through func(ssa.Value) bool) map[ssa.Value]bool {
+	return backSliceOpt(v, through, false)
+}
+
+// postDoms computes, per block, the set of blocks that post-dominate it (iterative dataflow; virtual exit).
+var pdomCache = map[*ssa.Function]map[*ssa.BasicBlock]map[*ssa.BasicBlock]bool{}
+
+func postDoms(fn *ssa.Function) map[*ssa.BasicBlock]map[*ssa.BasicBlock]bool {
+	if r, ok := pdomCache[fn]; ok {
+		return r
+	}
+	all := map[*ssa.BasicBlock]bool{}
+	for _, b := range fn.Blocks {
+		all[b] = true
+	}
+	pd := map[*ssa.BasicBlock]map[*ssa.BasicBlock]bool{}
+	for _, b := range fn.Blocks {
+		if len(b.Succs) == 0 {
+			pd[b] = map[*ssa.BasicBlock]bool{b: true}
+		} else {
+			m := map[*ssa.BasicBlock]bool{}
+			for x := range all {
+				m[x] = true
+			}
+			pd[b] = m
+		}
+	}
+	for changed := true; changed; {
+		changed = false
+		for i := len(fn.Blocks) - 1; i >= 0; i-- {
+			b := fn.Blocks[i]
+			if len(b.Succs) == 0 {
+				continue
+			}
+			nw := map[*ssa.BasicBlock]bool{}
+			first := true
+			for _, s := range b.Succs {
+				if first {
+					for x := range pd[s] {
+						nw[x] = true
+					}
+					first = false
+				} else {
+					for x := range nw {
+						if !pd[s][x] {
+							delete(nw, x)
+						}
+					}
+				}
+			}
+			nw[b] = true
+			if len(nw) != len(pd[b]) {
+				pd[b] = nw
+				changed = true
+			}
+		}
+	}
+	pdomCache[fn] = pd
+	return pd
+}
+
+// controlConds: conditions of the If blocks that b is (transitively) control-dependent on:
+// A ends in If, b post-dominates one successor of A but does not strictly post-dominate A.
+func controlConds(b *ssa.BasicBlock) []ssa.Value {
+	fn := b.Parent()
+	pd := postDoms(fn)
+	var out []ssa.Value
+	seen := map[*ssa.BasicBlock]bool{}
+	work := []*ssa.BasicBlock{b}
+	for len(work) > 0 {
+		cur := work[len(work)-1]
+		work = work[:len(work)-1]
+		for _, a := range fn.Blocks {
+			if len(a.Instrs) == 0 || seen[a] {
+				continue
+			}
+			iff, ok := a.Instrs[len(a.Instrs)-1].(*ssa.If)
+			if !ok {
+				continue
+			}
+			dep := false
+			for _, s := range a.Succs {
+				if pd[s][cur] && !(pd[a][cur] && a != cur) {
+					dep = true
+				}
+			}
+			if dep {
+				seen[a] = true
+				out = append(out, iff.Cond)
+				work = append(work, a)
+			}
+		}
+	}
+	return out
+}
+
+// backSliceOpt: with ctrl, the conditions controlling element stores and phi merges are part of the slice.
+func backSliceOpt(v ssa.Value, through func(ssa.Value) bool, ctrl bool) map[ssa.Value]bool {
 	seen := map[ssa.Value]bool{}
 	var work []ssa.Value
 	push := func(x ssa.Value) {
@@ -131,8 +228,19 @@ func backSlice(v ssa.Value, through func(ssa.Value) bool) map[ssa.Value]bool {
 		}
 		switch y := x.(type) {
 		case *ssa.Phi:
-			for _, e := range y.Edges {
+			for i, e := range y.Edges {
 				push(e)
+				if ctrl && i < len(y.Block().Preds) {
+					pb := y.Block().Preds[i]
+					if len(pb.Instrs) > 0 {
+						if iff, ok := pb.Instrs[len(pb.Instrs)-1].(*ssa.If); ok {
+							push(iff.Cond)
+						}
+					}
+					for _, cnd := range controlConds(pb) {
+						push(cnd)
+					}
+				}
 			}
 		case *ssa.UnOp:
 			push(y.X)
@@ -171,6 +279,11 @@ func backSlice(v ssa.Value, through func(ssa.Value) bool) map[ssa.Value]bool {
 							for _, u := range *rr {
 								if st, ok := u.(*ssa.Store); ok && st.Addr == ssa.Value(r) {
 									push(st.Val)
+									if ctrl {
+										for _, cnd := range controlConds(st.Block()) {
+											push(cnd)
+										}
+									}
 								}
 							}
 						}
@@ -179,6 +292,11 @@ func backSlice(v ssa.Value, through func(ssa.Value) bool) map[ssa.Value]bool {
 					if r.Map == x {
 						push(r.Key)
 						push(r.Value)
+						if ctrl {
+							for _, cnd := range controlConds(r.Block()) {
+								push(cnd)
+							}
+						}
 					}
 				}
 			}
